@@ -274,6 +274,21 @@ func (c *Compiler) compileDeclValue(node *parser.GenDecl) error {
 	if node.Tok == token.Const {
 		isConst = true
 		defer func() { c.iotaVal = -1 }()
+		// The expression of a constant is compiled again for each following
+		// constant which does not have a value, with another iota and with the
+		// meaning names have at that point. Compile time evaluation rewrites
+		// an expression in place, so it is not applied to such expressions.
+	Specs:
+		for _, sp := range node.Specs {
+			spec := sp.(*parser.ValueSpec)
+			for i := range spec.Idents {
+				if i >= len(spec.Values) || spec.Values[i] == nil {
+					c.sharedExpr++
+					defer func() { c.sharedExpr-- }()
+					break Specs
+				}
+			}
+		}
 	}
 
 	for _, sp := range node.Specs {
